@@ -78,6 +78,11 @@ def check_property(prop, tier, seed):
     if os.environ.get('VERIF_REBASE_RESIDUE'):
         RS.rebaseline(prop, runs)
     res_changed, _res_cur = RS.changed(prop, runs)
+    census = None
+    if prop == 'C02':
+        # census guard (vx/census.py): no task-state write outside the functions under contract / the allow-list
+        from . import census as CS
+        census = CS.scan(runs)
     extra_seed_runs = []
     if tier == 'thorough':
         # two further SMT seeds: an obligation that flips between seeds is unstable -> UNDECIDED
@@ -105,7 +110,7 @@ def check_property(prop, tier, seed):
         fbs = meta.get('fallback', [])
         if not fbs:
             continue
-        if not (u.undecided or tier == 'thorough' or res_changed):
+        if not (u.undecided or tier == 'thorough' or res_changed or (census is not None and census[2])):
             continue
         from . import scratch
         for drv in fbs:
@@ -164,10 +169,13 @@ def check_property(prop, tier, seed):
             continue
         seen.add(('driver', k.get('what')))
         known_lines.append(f'KNOWN-FINDING: property={prop} {k.get("what")} [bounded driver {drv["test"]}: {ln[:160]}]')
+    if census is not None:
+        for site in census[2]:
+            c['undecided'].append(f'census: a task-state write outside every function under contract: {site}')
     for o, d, u in c['unbaselined']:
         c['undecided'].append(f'{o.id} fails and is neither in the baseline nor a known finding: {d["message"]} at {d.get("site")}')
     wall = time.time() - t0
-    write_evidence(prop, tier, seed, runs, c, wall, index, violation_lines, fallback_runs, res_changed)
+    write_evidence(prop, tier, seed, runs, c, wall, index, violation_lines, fallback_runs, res_changed, census)
     if res_changed:
         print(f'NOTE property={prop}: code outside the functions under contract changed in {", ".join(res_changed)}; '
               f'the bounded real-code drivers of this property were run as well ({len(fallback_runs)} driver run(s))')
@@ -188,7 +196,7 @@ def check_property(prop, tier, seed):
     return 0
 
 
-def write_evidence(prop, tier, seed, runs, c, wall, index, violation_lines, fallback_runs=(), res_changed=()):
+def write_evidence(prop, tier, seed, runs, c, wall, index, violation_lines, fallback_runs=(), res_changed=(), census=None):
     os.makedirs(EVID, exist_ok=True)
     known_ids = sorted(set(o.id for o, _, _ in c['known']))
     obs = [o for o in c['obligations'] if o.id not in known_ids]
@@ -271,6 +279,9 @@ def write_evidence(prop, tier, seed, runs, c, wall, index, violation_lines, fall
         'wall_s': round(wall, 2),
         'violations': len(violation_lines),
     }
+    if census is not None:
+        ev['coverage']['census_of_state_writes'] = {'call_sites': census[0], 'inside_functions_under_contract': census[1],
+                                                    'on_the_allow_list': census[0] - census[1] - len(census[2]), 'uncovered': census[2]}
     with open(os.path.join(EVID, f'{prop}.json'), 'w') as f:
         json.dump(ev, f, indent=1)
 
